@@ -590,7 +590,9 @@ type fileRef struct {
 
 var fileObjs = map[*Object]*fileRef{}
 
-func (ex *Exec) fsHas(st *State) *Term { return ex.ghostArr(st, "fs:has", ArrSort(SB, SBool), "fs_has") }
+func (ex *Exec) fsHas(st *State) *Term {
+	return ex.ghostArr(st, "fs:has", ArrSort(SB, SBool), "fs_has")
+}
 func (ex *Exec) fsVal(st *State) *Term { return ex.ghostArr(st, "fs:val", ArrSort(SB, SB), "fs_val") }
 
 func init() {
